@@ -301,12 +301,12 @@ func (s *Swarm) merge(buf []byte) (mesh.GossipData, error) {
 		wasActive, isActive := active[key], s.state.Has(ev)
 
 		// If the subscription is added, notify (TODO: use channels)
-		if isActive && !wasActive && peer.onSubscribe(key, ev.Ssid) && peer.IsActive() {
+		if isActive && !wasActive && peer.onSubscribe(key, ev.Ssid) {
 			s.OnSubscribe(peer, ev)
 		}
 
 		// If the subscription is removed, notify (TODO: use channels)
-		if !isActive && wasActive && peer.onUnsubscribe(key, ev.Ssid) && peer.IsActive() {
+		if !isActive && wasActive && peer.onUnsubscribe(key, ev.Ssid) {
 			s.OnUnsubscribe(peer, ev)
 		}
 	})
